@@ -2,7 +2,7 @@
 From Coq Require Import ZArith NArith List Bool Reals Floats.
 From PV Require Import Num NumR model.Optimiser model.OptSpec proofs.OptStruct proofs.OptLoop proofs.OptConv proofs.FloatFacts proofs.RealFacts.
 From PV Require Import model.Cli gen.GenCli proofs.CliFacts.
-From PV Require Import gen.GenFns proofs.SourceFacts.
+From PV Require Import gen.GenFns model.Iter model.Pipeline proofs.ListLemmas proofs.SrcOpt.
 
 Theorem C20_work_bounds :
   forall (NN : Num) (c : cfg NN), (work NN c <= steps NN c)%N /\ (inner NN c <> 0%N -> (steps NN
@@ -110,10 +110,6 @@ Theorem C20_converged_is_source :
 Proof. exact converged_is_source. Qed.
 Print Assumptions C20_converged_is_source.
 
-Theorem C20_source_translated :
-  gen_fns_problem = String.EmptyString.
-Proof. exact source_translated. Qed.
-Print Assumptions C20_source_translated.
 
 
 Theorem S_end_loop_is_source :
@@ -177,4 +173,18 @@ Theorem S_build_is_source :
     NN fpow b = build NN fpow b.
 Proof. exact build_is_source. Qed.
 Print Assumptions S_build_is_source.
+
+
+Theorem C20_optimiser_source_translated :
+  translated_gen_energy_surface = true /\ translated_gen_test_acceptance = true /\
+    translated_gen_accept_score = true /\ translated_gen_cooling_factor = true /\
+    translated_gen_build = true /\ translated_gen_inner_steps = true /\ translated_gen_loops =
+    true /\ translated_gen_converged = true /\ translated_gen_ratio_update = true /\
+    translated_gen_init = true /\ translated_gen_init_count = true /\ translated_gen_loop_head =
+    true /\ translated_gen_inner_count = true /\ translated_gen_final_ok = true /\
+    translated_gen_mc_step = true /\ translated_gen_end_loop = true /\ translated_gen_clamp =
+    true /\ translated_gen_sample = true /\ translated_gen_reset_value = true /\
+    translated_gen_set_sampled = true.
+Proof. exact optimiser_source_translated. Qed.
+Print Assumptions C20_optimiser_source_translated.
 
